@@ -239,10 +239,19 @@ func (s *SUT) FaultOp(rng *rand.Rand) (Op, []Problem) {
 			}
 		}
 	}
+	for _, b := range s.T.Blocks {
+		if b.Idx > 0 && !s.Confirmed[b.Idx] && b.Parent == tip && s.LedgerTip() == tip && s.poolWithin(b.Idx) {
+			cs = append(cs, cand{kind: "mine", blk: b.Idx})
+			cs = append(cs, cand{kind: "mine", blk: b.Idx}) // twice: the producer path deserves weight
+		}
+	}
 	if len(cs) == 0 {
 		return Op{}, nil
 	}
 	c := cs[rng.Intn(len(cs))]
+	if c.kind == "mine" {
+		return s.faultMine(c.blk)
+	}
 	run := func(n *sn.Node) error {
 		switch c.kind {
 		case "confirm":
@@ -306,4 +315,44 @@ func (s *SUT) FaultOp(rng *rand.Rand) (Op, []Problem) {
 		return op, nil // completed steps legitimately persist; canon + twin auditors judge the result
 	}
 	return op, s.compareSnap(before, "fault:"+c.kind)
+}
+
+// faultMine: the producer path with the state write of PlayForMiner failing. Pool
+// admission and the ledger confirmation happen first (without fault); then nothing the
+// failed PlayForMiner touched may remain.
+func (s *SUT) faultMine(i int) (Op, []Problem) {
+	b := s.T.Blocks[i]
+	inPool := map[string]bool{}
+	pool, _ := s.N.State.GetUnconfirmedTx(false)
+	for _, x := range pool {
+		inPool[string(x.Txid)] = true
+	}
+	for _, x := range b.Block.Transactions {
+		if x.Coinbase || inPool[string(x.Txid)] {
+			continue
+		}
+		if r := s.SubmitTx(x); r != "ok" {
+			return s.log(Op{Kind: "fault", Block: i, Arg: ",mine", Result: "skipped(" + r + ")"}), nil
+		}
+	}
+	st := s.N.Confirm(b.Block)
+	if !st.Succ {
+		return s.log(Op{Kind: "fault", Block: i, Arg: ",mine", Result: "FAIL(confirm)"}), []Problem{{Sig: "legal-op-failed|confirm", Detail: "confirm of own block failed"}}
+	}
+	s.Confirmed[i] = true
+	s.Arrival = append(s.Arrival, i)
+	if st.Orphan {
+		return s.log(Op{Kind: "fault", Block: i, Arg: ",mine", Result: "branch"}), nil
+	}
+	before := s.snap()
+	s.N.World.ArmFail(1)
+	err := s.N.State.PlayForMiner(b.ID)
+	s.N.World.ArmFail(0)
+	op := s.log(Op{Kind: "fault", Block: i, Arg: ",mine,write 1/1", Result: fmt.Sprint(err)})
+	s.Stats["fault.mine"]++
+	if err == nil {
+		before.world.Drop()
+		return op, []Problem{{Sig: "write-error-swallowed|mine", Detail: "PlayForMiner reported success although its storage write failed"}}
+	}
+	return op, s.compareSnap(before, "fault:mine")
 }
